@@ -283,7 +283,7 @@ PROPS = {
                 "committed state S_i with (#commits returned before its begin was called) <= i <= (#commits started before its begin returned); every "
                 "re-read must equal the first; no writer alive during the reader's life may have pages reachable from the reader's (older) snapshot in "
                 "its private free set (probe hook); nothing panics.",
-        "run": generic(sanitizers=('tsan',), thorough_profiles=(), nshards=16, timeout_quick=1800),
+        "run": generic(sanitizers=('tsan',), thorough_profiles=(), nshards=8, timeout_quick=1800),
         "floors": {"any": {"executions": 1000, "preemptions": 1000, "reader_transactions_judged": 1000, "readers_that_outlived_a_later_commit": 100,
                            "writer/reader_pairs_checked_for_free_set_safety": 500, "free_running_executions": 100}},
         "assumptions": ["the total order of harness events comes from one SeqCst counter", "schedules are enumerated at the instrumented yield points only"],
@@ -302,10 +302,10 @@ PROPS = {
                 "snapshot. Oracle: a harness-side flag strictly inside the span the write transaction is open must never see two writers; final counter "
                 "== committed increments == increment keys; no counter value read by two committed increments; every thread finishes: a state in which "
                 "every unfinished worker sits in a futex wait is a deadlock; a reader found blocked while no writer is extending the file is a violation.",
-        "run": generic(sanitizers=('tsan',), thorough_profiles=(), nshards=16, timeout_quick=1800),
+        "run": generic(sanitizers=('tsan',), thorough_profiles=(), nshards=8, timeout_quick=1800),
         "floors": {"any": {"executions": 1000, "preemptions": 1000, "committed_increments": 3000, "workers_found_blocked_on_a_lock": 50,
                            "free_running_executions": 100}},
-        "assumptions": ["each thread holds at most one transaction", "deadlock = every live worker in a futex wait with no event for 20 ms (baton) / 300 ms (free running)"],
+        "assumptions": ["each thread holds at most one transaction", "deadlock = every live worker asleep (state S) in a futex wait with no event for 200 ms (baton) / 1 s (free running)"],
     },
     "C13": {
         "level": "exploration",
